@@ -364,7 +364,8 @@ def _compile(src, obj, flags, includes, stamp_inputs):
     Returns (ok, stderr_text, seconds, skipped)."""
     h = hashlib.sha256()
     h.update(" ".join(flags + includes).encode())
-    for p in [src] + list(stamp_inputs):
+    # the runtime header of the working tree is an input of every object
+    for p in [src] + list(stamp_inputs) + [pathlib.Path(RUNTIME_INCLUDE) / "packet_runtime.h"]:
         h.update(b"\0")
         try:
             h.update(pathlib.Path(p).read_bytes())
